@@ -5,7 +5,7 @@ import VivModel.Model.Results
   cfgexcl <name> <cats>                       configuration stratification.excluded_categories
   default <names>                             configuration stratification.default
   strat <name> <cats> <codeExcl|none> <edges|none>
-  obs add <name> <phase> <additional> <excluded>  |  obs cat <name> <phase>
+  obs add <name> <phase> <additional> <excluded> [nocb]  |  obs cat <name> <phase> [nocb]   (nocb: required callable missing)
   setup                                       on_post_setup
   ev <phase> <time> <inEvent bits> <raw rows> <name:toObserve:pass bits:vals|payloads>*
   get <name>   |   names <name>
@@ -68,6 +68,14 @@ def step (s : St) : List String → St × String
       | .error e => (s, "err " ++ e.name)
   | ["obs", "add", name, phase, add, exc] =>
     match registerObservation s.ctx name phase .adding (strList add) (strList exc) with
+    | .ok c => ({ s with ctx := c }, "ok")
+    | .error e => (s, "err " ++ e.name)
+  | ["obs", "add", name, phase, add, exc, "nocb"] =>
+    match registerObservation s.ctx name phase .adding (strList add) (strList exc) false with
+    | .ok c => ({ s with ctx := c }, "ok")
+    | .error e => (s, "err " ++ e.name)
+  | ["obs", "cat", name, phase, "nocb"] =>
+    match registerObservation s.ctx name phase .concat [] [] false with
     | .ok c => ({ s with ctx := c }, "ok")
     | .error e => (s, "err " ++ e.name)
   | ["obs", "cat", name, phase] =>
